@@ -82,6 +82,84 @@ Section Tty.
     | Some q' => if d_accepting d q' then Some (q', sbuf s ++ [b]) else None
     | None => None
     end.
+
+  (* ---- the same decoder with panics propagated where the code raises them ----
+     A payload decoder that panics does so inside decode_byte, at the byte that completes the
+     accepted string, whether or not that candidate would later be replaced by a longer match.
+     The `_c` functions are the loops above with that call checked first. *)
+  Definition call_panic (s : tstate) (b : N) : option N :=
+    match call_of s b with
+    | Some (q', w) => match item q' w with Some (IPanic site) => Some site | _ => None end
+    | None => None
+    end.
+
+  Definition dbyte_c (s : tstate) (b : N) : outcome (tstate * option ttok) :=
+    match call_panic s b with
+    | Some site => Panic site
+    | None => Ok (decode_byte N pitem (d_start d) (d_delta d) (d_accepting d) (d_terminal d) item s b)
+    end.
+
+  Fixpoint drain_c (fuel : nat) (s : tstate) : outcome (tstate * option ttok) :=
+    match fuel with
+    | O => OutOfFuel
+    | S fuel' =>
+        match sres s with
+        | [] => Ok (s, None)
+        | b :: r =>
+            let* (s', o) := dbyte_c (set_res s r) b in
+            match o with
+            | Some t => Ok (s', Some t)
+            | None => drain_c fuel' s'
+            end
+        end
+    end.
+
+  Fixpoint scan_c (s : tstate) (input : list N) : outcome (tstate * option ttok * list N) :=
+    match input with
+    | [] => Ok (s, None, [])
+    | b :: r =>
+        let* (s', o) := dbyte_c s b in
+        match o with
+        | Some t => Ok (s', Some t, r)
+        | None => scan_c s' r
+        end
+    end.
+
+  Definition decode_c (s : tstate) (input : list N) : outcome (tstate * option ttok * list N) :=
+    let* (s1, o) := drain_c (S (length (sres s))) s in
+    match o with
+    | Some t => Ok (s1, Some t, input)
+    | None => scan_c s1 input
+    end.
+
+  Definition tty_decode_c (s : tstate) (input : list N) : outcome (tstate * option ttok * list N) :=
+    let* (s', o, rest) := decode_c s input in
+    match o with
+    | Some (TRaw []) => Ok (s', None, rest)
+    | _ => Ok (s', o, rest)
+    end.
+
+  Fixpoint tty_decode_into_c (fuel : nat) (s : tstate) (input : list N) : outcome (list ttok * tstate * list N) :=
+    match fuel with
+    | O => OutOfFuel
+    | S fuel' =>
+        let* (s1, o, rest) := tty_decode_c s input in
+        match o with
+        | None => Ok ([], s1, rest)
+        | Some t =>
+            let* (ts, s2, rest2) := tty_decode_into_c fuel' s1 rest in
+            Ok (t :: ts, s2, rest2)
+        end
+    end.
+
+  Fixpoint tty_feed_c (fuel : nat) (s : tstate) (chunks : list (list N)) : outcome (list ttok * tstate) :=
+    match chunks with
+    | [] => Ok ([], s)
+    | c :: cs =>
+        let* (t1, s1, _) := tty_decode_into_c fuel s c in
+        let* (t2, s2) := tty_feed_c fuel s1 cs in
+        Ok (t1 ++ t2, s2)
+    end.
 End Tty.
 
 (* ------------------------------------------------------------------ *)
